@@ -16,10 +16,9 @@ SLICER = 'metamath.metamath_extract_slice'
 
 # set iterations of the slicer read and triaged by hand: one line of reason each
 SLICER_SET_ITERATION_TRIAGED = {
-    ('supporting_database_for_provable', 'global_disjoints'):
-        'only the order of the emitted `$d` statements depends on it, and `$d` statements commute',
-    ('supporting_database_for_provable', 'needed_lemmas'):
-        'the iteration only feeds set unions and the symbol scan (order-insensitive accumulators)',
+    # (function, rename-stable site key - see core/localkeys.py)
+    ('supporting_database_for_provable', 'expr:_ @ for _ in _: if _.issubset(_): _.append(DisjointStatement(tuple((Metavariable(_) for _ in _))))'):
+        '(`global_disjoints`) only the order of the emitted `$d` statements depends on it, and `$d` statements commute',
 }
 
 
@@ -192,30 +191,44 @@ def run(ctx):
                    facts={'grammar': terms, 'encoder letter': want})
     # (d) the slicer keeps hypotheses in an insertion-ordered container; sets reach the output only through sorted
     fn = py.function(SLICER, 'slice_database')
-    cut = [n for n in ast.walk(fn) if isinstance(n, ast.AnnAssign) and isinstance(n.target, ast.Name) and n.target.id == 'cut_antecedents']
-    ok = bool(cut) and ast.unparse(cut[0].annotation).startswith('dict[')
+    sup = py.function(SLICER, 'supporting_database_for_provable')
+    # the container is identified by its role, not its name: the first argument of the call that builds a slice
+    sup_calls = [n for n in ast.walk(fn) if isinstance(n, ast.Call) and isinstance(n.func, ast.Name) and n.func.id == sup.name and n.args]
+    ctx.require(len(sup_calls) >= 1 and all(isinstance(c.args[0], ast.Name) for c in sup_calls) and len({c.args[0].id for c in sup_calls}) == 1,
+                'slice_database: the container of cut antecedents handed to supporting_database_for_provable is not a local')
+    CUT = sup_calls[0].args[0].id
+    decl = [n for n in ast.walk(fn) if isinstance(n, ast.AnnAssign) and isinstance(n.target, ast.Name) and n.target.id == CUT] + \
+           [n for n in ast.walk(fn) if isinstance(n, ast.Assign) and any(isinstance(t, ast.Name) and t.id == CUT for t in n.targets)]
+    def _is_dict(n):
+        if isinstance(n, ast.AnnAssign) and ast.unparse(n.annotation).split('[')[0] in ('dict', 'Dict', 'OrderedDict'):
+            return n.value is None or isinstance(n.value, ast.Dict) or (isinstance(n.value, ast.Call) and ast.unparse(n.value.func) in ('dict', 'OrderedDict'))
+        return isinstance(n.value, ast.Dict) or (isinstance(n.value, ast.Call) and ast.unparse(n.value.func) in ('dict', 'OrderedDict'))
+    float_stores = [n for n in ast.walk(fn) if isinstance(n, ast.Assign) and isinstance(n.targets[0], ast.Subscript)
+                    and isinstance(n.targets[0].value, ast.Name) and n.targets[0].value.id == CUT]
+    ok = len(decl) == 1 and _is_dict(decl[0]) and len(float_stores) >= 1
     ctx.ob('slice-order', 'hypotheses-in-ordered-container', ok,
-           'slice_database must keep the cut antecedents (floating hypotheses first) in a dict (insertion order = database order)',
-           py.where(SLICER, fn))
+           f'slice_database must keep the cut antecedents (floating hypotheses first) in a dict (insertion order = database order); `{CUT}` is '
+           f'declared {[ast.unparse(d)[:60] for d in decl]}', py.where(SLICER, fn))
     oa = OrderAnalysis(py)
     for s in oa.sites():
         if s.module != SLICER:
             continue
         if s.safe:
             ctx.ob('slice-order', f'{s.function}:{s.key}/{s.consumer}', True, s.why, py.where(SLICER, s.node))
-        elif (s.function, s.expr) in SLICER_SET_ITERATION_TRIAGED:
+        elif (s.function, s.stable) in SLICER_SET_ITERATION_TRIAGED:
             ctx.advisory(f'{s.function}: `{s.expr}` (set of {s.elem}) is iterated in an order-sensitive way ({s.consumer}); '
-                         + SLICER_SET_ITERATION_TRIAGED[(s.function, s.expr)])
+                         + SLICER_SET_ITERATION_TRIAGED[(s.function, s.stable)])
         else:
             ctx.ob('slice-order', f'{s.function}:{s.key}/{s.consumer}', False,
                    f'{s.function}: `{s.expr}` (a set of {s.elem}) is iterated in an order-sensitive way ({s.consumer}): the order of what is '
                    f'built from it depends on the hash seed, and the slicer\'s containers carry the database order of the hypotheses',
                    py.where(SLICER, s.node))
     # floating hypotheses are emitted in the order of that container
-    sup = py.function(SLICER, 'supporting_database_for_provable')
-    emits = [n for n in ast.walk(sup) if isinstance(n, ast.For) and 'cut_antecedents.items()' in ast.unparse(n.iter)]
+    P0 = sup.args.args[0].arg
+    emits = [n for n in ast.walk(sup) if isinstance(n, ast.For) and ast.unparse(n.iter) in (f'{P0}.items()', f'{P0}.values()', P0)
+             and any(isinstance(c, ast.Call) and isinstance(c.func, ast.Attribute) and c.func.attr == 'append' for c in ast.walk(n))]
     ctx.ob('slice-order', 'hypotheses-emitted-in-container-order', bool(emits),
-           'supporting_database_for_provable must emit the kept statements by iterating cut_antecedents in order', py.where(SLICER, sup))
+           f'supporting_database_for_provable must emit the kept statements by iterating `{P0}` in order', py.where(SLICER, sup))
     # (e) dispatch chains over statement kinds end in a raising branch; constant-true asserts cannot fail
     for mname in (SLICER, AST, PARSER, 'metamath.utils.printer'):
         mi = py.modules.get(mname)
